@@ -44,7 +44,7 @@ func VerifC17Parse() {
 	}
 	vAssume(0 <= long && long < k)
 	p := NewParser(nil, strings.NewReader(c17Lines(k, long)))
+	vReach("before-parsed")
 	out, _ := p.Parse(false)
-	vReach("parsed")
 	vAssert(countLines(out.String()) == k, "C17 Parser.Parse: lines after a line longer than 64 KiB are silently dropped")
 }
